@@ -459,6 +459,23 @@ func (vc *VC) modifiesTargets(spec *FuncSpec, env *Env) (targets []modTarget, al
 				t, _ := env.resolveType(item[6 : len(item)-1])
 				n, s := vc.elemVar(t)
 				targets = append(targets, modTarget{n, s, ""})
+			case strings.HasPrefix(item, "elemsof(") && strings.HasSuffix(item, ")"):
+				// elemsof(s): the elements of the backing array of slice s
+				e, err := parseExpr(item[8 : len(item)-1])
+				if err != nil {
+					panic(execErr(err.Error()))
+				}
+				sl, err := env.translate(e)
+				if err != nil {
+					panic(execErr(err.Error()))
+				}
+				sl = env.value(sl)
+				st, ok := types.Unalias(sl.T).Underlying().(*types.Slice)
+				if !ok {
+					panic(execErr("elemsof() needs a slice: " + item))
+				}
+				n, s := vc.elemVar(st.Elem())
+				targets = append(targets, modTarget{n, s, slRef(sl.S)})
 			case strings.HasPrefix(item, "cells(") && strings.HasSuffix(item, ")"):
 				t, _ := env.resolveType(item[6 : len(item)-1])
 				n, s := vc.cellVar(t)
